@@ -339,7 +339,7 @@ mod search {
 #[test]
 fn bounded_search_over_builder_call_sequences() {
     let thorough = std::env::var("VERIF_TIER").map(|t| t == "thorough").unwrap_or(false);
-    let n: u64 = if thorough { 20_000 } else { 2_000 };
+    let n: u64 = if thorough { 100_000 } else { 2_000 };
     let mut rng = search::Rng(0x2545F4914F6CDD1D);
     let (mut components, mut nested) = (0usize, 0usize);
     for i in 0..n {
